@@ -129,7 +129,7 @@ def main(tier):
             mx = z3.If(z3.fpGEQ(z3.fpAbs(a), z3.fpAbs(b)), z3.fpAbs(a), z3.fpAbs(b))
             tol = z3.fpMul(RNE, mx, z3.FPVal(2.0 ** -22, F64))
             small64 = z3.FPVal(2.0 ** -100, F64)
-            for xc in ([0.25, 0.5, 0.75] if quick else [0.25, 0.5, 0.75, 1 / 3]):
+            for xc in ([0.5] if quick else [0.25, 0.5, 0.75, 1 / 3]):
                 ob(f'f32-precision[x={xc:.4g}]', [x == fpv32(xc), z3.fpLEQ(z3.fpAbs(a), big64), z3.fpLEQ(z3.fpAbs(b), big64), z3.Or(z3.fpIsZero(a), z3.fpGEQ(z3.fpAbs(a), small64)), z3.Or(z3.fpIsZero(b), z3.fpGEQ(z3.fpAbs(b), small64))],
                    z3.Or(S.panic, z3.Not(z3.fpLEQ(z3.fpAbs(z3.fpSub(RNE, r, exact)), tol))),
                    f'f64, a, b zero or 2^-100 <= |.| <= 2^100 (f32-representable; no f32 underflow), x = {xc:.4g}: |lerp - (a(1-x)+bx)| <= 2^-22 max(|a|,|b|)', timeout=300 if quick else to)
@@ -174,6 +174,24 @@ def main(tier):
                     ob('range-nopanic', xin, z3.Or(S.panic, z3.Not(inrange)), f'x in [0,1]: no panic and min <= lerp <= max, ALL {ty} a,b')
                     ob('identity', xin + [b == a], z3.Or(S.panic, r != a), f'lerp(a,a,x) == a for x in [0,1], all {ty} a')
             else:
+                # exact instances of "the real interpolation rounded to nearest" for the wide types: with one endpoint 0 and x = 2^-k
+                # (resp. 1 - 2^-k) the f32 computation is exact (multiplication by a power of two), so the result must be b / 2^k (resp.
+                # a / 2^k) rounded to nearest, for EVERY f32-representable value of the other endpoint.  Reference in integer arithmetic.
+                W2 = bits + 2
+                exw = (lambda v: z3.SignExt(2, v)) if sg else (lambda v: z3.ZeroExt(2, v))
+                for kx in (1, 8, 20, 24):
+                    half = z3.BitVecVal(1 << (kx - 1), W2)
+                    def rnd(v):
+                        vv = exw(v); mag = z3.If(vv < 0, -vv, vv)
+                        q = z3.LShR(mag + half, kx)            # round half away from zero (ties: either neighbour is accepted below)
+                        return z3.If(vv < 0, -q, q), z3.LShR(mag + half - 1, kx)
+                    for which, xc, other_zero, moving in (('a=0', 2.0 ** -kx, a == 0, b), ('b=0', 1.0 - 2.0 ** -kx, b == 0, a)):
+                        qa, qt = rnd(moving)
+                        vv = exw(moving); neg = vv < 0
+                        alt = z3.If(neg, -qt, qt)              # the other admissible neighbour on an exact tie
+                        o = check.add(Obligation(f'C14.{ty}.nearest-pow2[{which},x={"1-" if which == "b=0" else ""}2^-{kx}]', pre + [other_zero, x == fpv32(xc), z3.Or(S.panic, z3.And(exw(r) != qa, exw(r) != alt))], mv, timeout=to,
+                                                 words=f'{which}, x = {"1 - " if which == "b=0" else ""}2^-{kx}: lerp is the other endpoint / 2^{kx} rounded to nearest (the f32 computation is exact here), every f32-representable {ty} value'))
+                        o.S = S; o.pow2 = (which, kx)
                 lim = 1 << 22
                 inr = (lambda v: z3.And(v <= lim, v >= -lim)) if sg else (lambda v: z3.ULE(v, z3.BitVecVal(lim, bits)))
                 # literal reading for every f32-representable value: fails above 2^22 (float rounding) -> known finding
@@ -224,7 +242,10 @@ def glam_part(check):
         av = [z3.Const(f'ga{i}_{T}', srt) for i in range(n)]; bv = [z3.Const(f'gb{i}_{T}', srt) for i in range(n)]; t = z3.FP(f'gt_{T}', F32)
         ov = [(re.compile(r' as Lerp>::lerp$'), ov_lerp_uf),
               (re.compile(r'(^|::)(U64Vec|I64Vec|DVec|IVec|UVec|Vec)[234]A?::new$'), lambda m, c, a, T=T: Agg(T, list(a))),
-              (re.compile(r'<(U64Vec|I64Vec|DVec|IVec|UVec|Vec)[234]A? as Deref>::deref$'), lambda m, c, a: a[0])]
+              (re.compile(r'<(U64Vec|I64Vec|DVec|IVec|UVec|Vec)[234]A? as Deref>::deref$'), lambda m, c, a: a[0]),
+              # any other function of glam itself (e.g. its own `lerp`, which is a + (b - a) t): opaque, NOT the component-wise terms
+              (re.compile(r'(^|::)(U64Vec|I64Vec|DVec|IVec|UVec|Vec)[234]A?::\w+$'),
+               lambda m, c, a, T=T, n=n, elem=elem, srt=srt: Agg(T, [Sc(elem, z3.Const(f'glam_opaque_{T}_{i}', srt)) for i in range(n)]))]
         m = Machine(prog, enums, overrides=ov)
         def h(m):
             return m.call_fn(f, [m.alloc(Agg(T, [Sc(elem, x) for x in av])), m.alloc(Agg(T, [Sc(elem, x) for x in bv])), Sc('f32', t)])
@@ -242,13 +263,18 @@ def glam_part(check):
         ob.result = rr; ob.glam = (T, elem, n); seen.append(T)
         if rr.status == 'sat':
             # native: distinct components so that a mixed-up component is visible
-            case = {'kind': 'glam_lerp', 'ty': T, 'a': [str(float(3 * i + 1)) for i in range(n)], 'b': [str(float(40 * (i + 1))) for i in range(n)], 'x': '%08x' % f32bits(0.25)}
+            probes = [([float(3 * i + 1) for i in range(n)], [float(40 * (i + 1)) for i in range(n)], 0.25),
+                      ([-16777216.0] * n if elem in ('f32', 'f64', 'i32', 'i64') else [16777216.0] * n, [1.5 + i for i in range(n)] if elem in ('f32', 'f64') else [float(3 + i) for i in range(n)], 1.0),
+                      ([float(7 * (i + 1)) for i in range(n)], [float(1000003 * (i + 1)) for i in range(n)], 1 / 3), ([0.1 * (i + 1) for i in range(n)], [float(2 ** 20 + i) for i in range(n)], 0.7)]
+            cases = [{'kind': 'glam_lerp', 'ty': T, 'a': [str(v if elem in ('f32', 'f64') else float(int(v))) for v in pa], 'b': [str(v if elem in ('f32', 'f64') else float(int(v))) for v in pb], 'x': '%08x' % f32bits(px)} for pa, pb, px in probes]
             try:
-                nat = run_replay([case], 'dev')[0]
-                if nat.get('same') is False:
-                    check.report_violation(ob.name, None, f'{T}::lerp is not component-wise: {nat["r"]} but the components interpolate to {nat["componentwise"]} (a = {case["a"]}, b = {case["b"]}, t = 0.25); executor: {[str(x.t)[:60] for x in rs[0].value.f]}', case)
+                nats = run_replay(cases, 'dev')
+                hit = next(((c, nt) for c, nt in zip(cases, nats) if nt.get('same') is False), None)
+                if hit:
+                    case, nat = hit
+                    check.report_violation(ob.name, None, f'{T}::lerp is not component-wise: {nat["r"]} but the components interpolate to {nat["componentwise"]} (a = {case["a"]}, b = {case["b"]}, t = {bits2f32(int(case["x"], 16))!r}); executor: {[str(x.t)[:60] for x in rs[0].value.f]}', case)
                 else:
-                    check.inconclusive.append(f'{ob.name}: structural counterexample did not reproduce natively: {nat}')
+                    check.inconclusive.append(f'{ob.name}: structural counterexample did not reproduce natively: {nats[:1]}')
             except Exception as e:
                 check.inconclusive.append(f'{ob.name}: glam replay unavailable ({e})')
     check.info['glam_types'] = seen
@@ -314,6 +340,12 @@ def confirm(check, ob):
             k = round(x * (1 << mb)); N = ai * ((1 << mb) - k) + bi * k
             if abs(ri * (1 << mb) - N) > (1 << (mb - 1)) + 1:
                 viol = f'lerp::<{ty}>(a={ai}, b={bi}, x={x!r}) = {ri}, but the real interpolation is {N / (1 << mb)!r}: not rounded to nearest'
+        elif name.startswith('nearest-pow2'):
+            which, kx = ob.pow2; ai, bi, ri = int(nat['a']), int(nat['b']), int(r)
+            import fractions
+            real = fractions.Fraction(bi, 2 ** kx) if which == 'a=0' else fractions.Fraction(ai, 2 ** kx)
+            if abs(fractions.Fraction(ri) - real) > fractions.Fraction(1, 2):
+                viol = f'lerp::<{ty}>(a={ai}, b={bi}, x={x!r}) = {ri}, but the real interpolation is {float(real)!r}: not rounded to nearest'
         elif name.startswith('between-1ulp') and not nat.get('in_range'):
             af, bf, rf = bits2f32(int(nat['a'])), bits2f32(int(nat['b'])), bits2f32(int(r))
             import numpy as np
